@@ -283,4 +283,29 @@ theorem loadKey_eq_specKey (fm : Bool) (src : Src) (inS : Bool) (evs : List KEv)
   rw [e1, e2]
   exact foldl_groups_closed src _ (foldl_decls_wf2 src _ q hw) _
 
+/-! ## idempotence of the per-predicate load -/
+
+def declsFold (src : Src) (D : List Fl) (p : Pred) : Pred :=
+  D.foldl (fun q f => stepK src q (.decl f)) p
+
+/-- explicit form of a run of declarations. -/
+theorem declsFold_eq (src : Src) (D : List Fl) (p : Pred) :
+    declsFold src D p =
+      { ext := p.ext || !D.isEmpty
+        dyn := p.dyn || D.contains .dyn
+        disc := p.disc || D.contains .disc
+        multi := p.multi || D.contains .multi
+        defined := p.defined || !D.isEmpty
+        tracked := p.tracked
+        cls := if D.contains .disc && p.tracked then foreign src p.cls else p.cls } := by
+  induction D generalizing p with
+  | nil => cases p; simp [declsFold]
+  | cons f D ih =>
+    unfold declsFold at ih ⊢
+    rw [List.foldl_cons, ih]
+    cases p with
+    | mk ext dyn disc multi defined tracked cls =>
+    cases f <;> cases tracked <;> by_cases hD : Fl.disc ∈ D <;>
+      simp [stepK, Pred.setFl, hD, foreign_idem, Bool.or_assoc, Bool.or_comm, Bool.or_left_comm]
+
 end Scryer.Loader
